@@ -58,14 +58,29 @@ class RuleInfo:
             used = set()
             for g in all_funcs_of(self.count):
                 for n in g.own_nodes():
+                    conds = []
                     if isinstance(n, (ast.ListComp, ast.GeneratorExp)):
                         for gen in n.generators:
-                            for cond in gen.ifs:
-                                for sub in ast.walk(cond):
-                                    if isinstance(sub, ast.Call) and isinstance(sub.func, ast.Name) and len(sub.args) == 1:
-                                        used.add(sub.func.id)
+                            conds += list(gen.ifs)
+                    elif isinstance(n, ast.If):
+                        conds.append(n.test)       # the filter of a loop written (or normalised) as `for c in ...: if hasQuota(c):`
+                    for cond in conds:
+                        for sub in ast.walk(cond):
+                            if isinstance(sub, ast.Call) and isinstance(sub.func, ast.Name) and len(sub.args) == 1:
+                                used.add(sub.func.id)
             c = [h for h in hs if h.name in used and len(h.params) == 1 and any(
                 isinstance(r, ast.Return) and isinstance(r.value, ast.Compare) and 'quota' in unparse(r.value) for r in h.own_nodes())]
+            if len(c) > 1:
+                # several tally predicates (cfer: hasQuota and hasSurplus): the election filter is the one guarding an elect call
+                def guards_elect(h):
+                    for g in all_funcs_of(self.count):
+                        for n in g.own_nodes():
+                            if isinstance(n, ast.If) and any(isinstance(x, ast.Call) and isinstance(x.func, ast.Name) and x.func.id == h.name for x in ast.walk(n.test)) \
+                                    and any(isinstance(x, ast.Call) and isinstance(x.func, ast.Attribute) and x.func.attr == 'elect' for b_ in n.body for x in ast.walk(b_)):
+                                return True
+                    return False
+                c2 = [h for h in c if guards_elect(h)]
+                c = c2 or c
             found = c[0] if len(c) == 1 else None
         elif role == 'iterate':
             loop = self.main_loop()
